@@ -426,6 +426,11 @@ func main() {
 				a["ro"] = vlib.Limbs(new(big.Int).Add(vlib.FromLimbs(a["ro"].([]int)), big.NewInt(1)))
 				break
 			}
+			if v == "cap" && e["ev"] == "rev" && e["err"] == false && e["op"] == "append" {
+				a := e["after"].(ev)
+				a["cap"] = vlib.Limbs(new(big.Int).Add(vlib.FromLimbs(a["cap"].([]int)), big.NewInt(1<<22)))
+				break
+			}
 			if e["ev"] == "renew" && e["op"] == v {
 				r := e["r"].(ev)
 				r["hr"] = vlib.Limbs(new(big.Int).Add(vlib.FromLimbs(r["hr"].([]int)), big.NewInt(1)))
@@ -564,8 +569,8 @@ func main() {
 		// capacity bookkeeping: sectors freed and then fewer / as many / more appended again, each revision
 		// accepted by the real consensus code as a revision of the previous one
 		for _, k := range []string{"no-free-space", "smaller", "equal", "larger"} {
-			if st.appendVsFree[k] < 5*minOps {
-				c.Infra("vacuity: only %d accepted appends of class %q (appended sectors vs free capacity), want >= %d", st.appendVsFree[k], k, 5*minOps)
+			if st.appendVsFree[k] < 2*minOps {
+				c.Infra("vacuity: only %d accepted appends of class %q (appended sectors vs free capacity), want >= %d", st.appendVsFree[k], k, 2*minOps)
 			}
 		}
 		if st.appendVsFree["smaller"] < modelSmaller {
